@@ -616,6 +616,30 @@ def t_while_with_else_and_state_machine():
             out.append(cur)
     return out
 
+def t_one_shot_iterators():
+    g = (x * 2 for x in [1, 2, 3])
+    a = list(g)
+    b = list(g)
+    def gen():
+        yield 1
+        yield 2
+    h = gen()
+    c = [*h]
+    d = [*h]
+    z = zip([1, 2], 'ab')
+    e = list(z)
+    f = list(z)
+    m = map(str, [1, 2])
+    first = next(m)
+    rest = list(m)
+    from itertools import chain
+    ch = chain([1], [2])
+    i = tuple(ch)
+    j = tuple(ch)
+    lst = [1, 2]
+    k = (list(lst), list(lst))
+    return (a, b, c, d, e, f, first, rest, i, j, k)
+
 def t_ordereddict_counter():
     from collections import OrderedDict
     od = OrderedDict([('b', 1), ('a', 2)])
